@@ -11,6 +11,7 @@ Shapes that are expanded (the call is the whole value of the statement):
 
     helper(a)                 x = helper(a)            x += helper(a)
     return helper(a)          if helper(a): / if not helper(a):     x: T = helper(a)
+    raise helper(a)
 
 * ``return helper(a)`` (tail position): the helper's returns stay returns.
 * helper with a single trailing return (or none): its body is spliced in and the return
@@ -302,6 +303,8 @@ class Flattener:
             return s.value, "value"
         if isinstance(s, ast.Return) and isinstance(s.value, ast.Call):
             return s.value, "tail"
+        if isinstance(s, ast.Raise) and isinstance(s.exc, ast.Call) and s.cause is None:
+            return s.exc, "raise"
         if isinstance(s, ast.If):
             t = s.test
             if isinstance(t, ast.Call):
@@ -386,6 +389,9 @@ class Flattener:
             return []
         if mode == "value":
             s.value = rexpr
+            return [s]
+        if mode == "raise":
+            s.exc = rexpr
             return [s]
         if mode == "test":
             if isinstance(s.test, ast.Call):
